@@ -32,7 +32,13 @@ fn inside(v: &Q, lo: f64, hi: f64, tol: &Q) -> bool {
             return false;
         }
     }
-    if lo == f64::INFINITY || hi == f64::NEG_INFINITY {
+    // a bound that overflowed to the "wrong" infinity stands for "beyond the largest float":
+    // it contains exactly the values a float cannot represent (2 * 8.99e307 is such a value)
+    let fmax = q(f64::MAX).unwrap();
+    if lo == f64::INFINITY && *v <= fmax {
+        return false;
+    }
+    if hi == f64::NEG_INFINITY && *v >= -fmax {
         return false;
     }
     true
